@@ -3,6 +3,7 @@ package rules
 import (
 	"fmt"
 	"go/ast"
+	"go/token"
 	"strings"
 
 	"golang.org/x/tools/go/packages"
@@ -41,6 +42,12 @@ func init() {
 	mutant(&Mutant{Name: "c04-parse-error-skips-strings", Property: "C04", File: "css/css.go",
 		Old: "\t\t\t\tfor _, val := range vals {\n\t\t\t\t\tc.w.Write(val.Data)\n\t\t\t\t}\n\t\t\t\tcontinue", New: "\t\t\t\tfor _, val := range vals {\n\t\t\t\t\tif val.TokenType == css.BadStringToken {\n\t\t\t\t\t\tcontinue\n\t\t\t\t\t}\n\t\t\t\t\tc.w.Write(val.Data)\n\t\t\t\t}\n\t\t\t\tcontinue",
 		Rule: "R04.2", Construct: "parse error"})
+	mutant(&Mutant{Name: "c04-flex-auto-prefix-test", Property: "C04", File: "css/css.go",
+		Old: "\t\t\tif len(values[0].Data) == 1 && len(values[1].Data) == 1 {\n\t\t\t\tif values[2].Ident == Auto {", New: "\t\t\tif len(values[0].Data) == 1 {\n\t\t\t\tif values[2].Ident == Auto {",
+		Rule: "R04.3", Construct: "values[1].Data[0]=='1'"})
+	mutant(&Mutant{Name: "c09-bigint-through-number", Property: "C09", File: "js/util.go",
+		Old: "\tb, suffix = removeUnderscoresAndSuffix(b)\n\tif suffix {\n\t\treturn append(b, 'n')\n\t}\n\treturn minify.Number(b, prec)", New: "\tb, suffix = removeUnderscoresAndSuffix(b)\n\tb = minify.Number(b, prec)\n\tif suffix {\n\t\treturn append(b, 'n')\n\t}\n\treturn b",
+		Rule: "R09.3", Construct: "decimalNumber"})
 	mutant(&Mutant{Name: "c09-throw-without-semicolon", Property: "C09", File: "js/js.go",
 		Old: "\t\tm.write(throwBytes)\n\t\tm.writeSpaceBeforeIdent()\n\t\tm.minifyExpr(stmt.Value, js.OpExpr)\n\t\tm.requireSemicolon()\n", New: "\t\tm.write(throwBytes)\n\t\tm.writeSpaceBeforeIdent()\n\t\tm.minifyExpr(stmt.Value, js.OpExpr)\n",
 		Rule: "R09.1", Construct: "case *js.ThrowStmt"})
@@ -240,6 +247,45 @@ func runC04(c *Ctx) {
 		}
 	}
 	_ = cssMinT
+	c.r043(pk)
+}
+
+// R04.3: a first-byte digit test is a whole-value test only for one-byte numbers.
+func (c *Ctx) r043(pk *packages.Package) {
+	const rule = "R04.3"
+	c.R.Rule(rule, "package css: numbers are minified before property rewriting, so a first byte '0' identifies zero (no leading zeros survive); for any other digit d the test X.Data[0] == 'd' says nothing about the value (10, 1.5, 100 all start with '1'). Every comparison of a token's Data[0] with a non-zero digit must therefore be dominated by the true outcome of len(X.Data) == 1 for the same X — otherwise `flex:2 10 0px` is treated as shrink factor 1")
+	n := 0
+	for _, fd := range load.FuncDecls(pk) {
+		g := c.graph(pk, fd)
+		for _, y := range g.Nodes {
+			if y.Kind != flow.KCond {
+				continue
+			}
+			b, ok := ast.Unparen(y.Expr).(*ast.BinaryExpr)
+			if !ok || (b.Op != token.EQL && b.Op != token.NEQ) {
+				continue
+			}
+			ix, ok := ast.Unparen(b.X).(*ast.IndexExpr)
+			if !ok || !strings.HasSuffix(str(ix.X), ".Data") || str(ix.Index) != "0" {
+				continue
+			}
+			lit, ok := ast.Unparen(b.Y).(*ast.BasicLit)
+			if !ok || lit.Kind != token.CHAR || len(lit.Value) != 3 || lit.Value[1] < '1' || lit.Value[1] > '9' {
+				continue
+			}
+			n++
+			x := str(ix.X)
+			guarded := false
+			for _, f := range g.DomFacts(y) {
+				if f.Value && f.Test.Kind == flow.KCond && nospace(str(f.Test.Expr)) == "len("+x+")==1" {
+					guarded = true
+				}
+			}
+			c.R.Check(guarded, rule, fmt.Sprintf("css.%s/%s tested as a one-digit value#%d", load.FuncName(fd), nospace(str(y.Expr)), n), c.pos(y.Expr), "dominated by len("+x+") == 1",
+				"the first byte of "+x+" is compared with "+lit.Value+" without knowing that the number has a single digit: every value starting with that digit (10, 1.5, 100 …) is treated as "+string(lit.Value[1])+" and the rewrite changes the declaration's meaning")
+		}
+	}
+	c.R.Floor(rule, "non-zero digit tests", n, 3)
 }
 
 // ---------------------------------------------------------------------------
@@ -335,4 +381,5 @@ func runC09(c *Ctx) {
 		}
 		c.R.Floor(rule, "class field printers", k, 1)
 	}
+	c.r019(pk, "R09.3")
 }
